@@ -183,6 +183,9 @@ def renderings(kind, s, maxlines):
     """every way the set s may be written in a config for this rule kind: list of line lists"""
     items = vlan.collapse(s, kind.dialect)
     out = [vlan.render(items, cut, kind.dialect, kind.prefix, kind.swtrunk) for cut in vlan.cuts(len(items), maxlines)]
+    if kind.dialect in ("nexus", "catalyst") and len(items) >= 2:
+        # the spelling some Cisco devices print: a blank after every comma of the list (annet normalises it)
+        out.append([ln.replace(",", ", ") for ln in out[0]])
     if not s and kind.empty_alt:
         out.append([kind.empty_alt])
     return out
